@@ -570,6 +570,47 @@ def unit_histories(args):
     return out
 
 
+def cp1_helpers(run):
+    """utils.cp1: the two conversions between (Fubini-Study centre, radius) and (Euclidean centre,
+    radius) of a circle, against the emitted disks of the fs build cases"""
+    from geometry_tools.utils import cp1 as ucp1
+    sel = [cs for cs in CASES if cs["kind"] == "fs" and cs["pt"][0] != [0, 0] and cs["pt"][1] != [0, 0]
+           and OBS[hkey(cs["H"])]["affine"]]
+    if not sel:
+        return
+    w = np.array([G(cs["pt"][1]) / G(cs["pt"][0]) for cs in sel])
+    rho = np.array([rho_of(cs) for cs in sel])
+    ob = [OBS[hkey(cs["H"])] for cs in sel]
+    cexp = np.array([complex(o["centre"][0], o["centre"][1]) / o["centre"][2] for o in ob])
+    rexp = np.sqrt(np.array([o["r2"][0] / o["r2"][1] for o in ob], dtype=float))
+    bnd = np.array([o["bounded"] for o in ob], dtype=bool)
+    scale = 1 + np.abs(cexp) + rexp
+
+    def viol(cs, clause, observed):
+        run.violation("cp1util:%s:%s:%s" % (clause, json.dumps(cs["p"]), json.dumps(cs["r"])), "utils.cp1:" + clause,
+                      dict(kind="cp1util", build=cs, spec_disk=OBS[hkey(cs["H"])], observed=observed))
+    for label, call in (("batch", lambda f, a, b: np.asarray(f(a, b))),
+                        ("scalars", lambda f, a, b: np.array([f(x, y) for x, y in zip(a, b)]))):
+        try:
+            with np.errstate(all="ignore"):
+                got = call(ucp1.fs_ctr_to_aff_ctr, w, rho)
+            for k in np.nonzero(~(np.abs(got - cexp) <= TOL_AFF * scale))[0][:5]:
+                viol(sel[k], "fs_ctr_to_aff_ctr(%s)" % label, dict(got=str(got[k]), spec=str(cexp[k])))
+        except Exception as e:
+            viol(sel[0], "raised:fs_ctr_to_aff_ctr(%s)" % label, err(e))
+        try:
+            with np.errstate(all="ignore"):
+                got = call(ucp1.aff_ctr_to_fs_ctr, cexp[bnd], rexp[bnd])
+            want = np.abs(w[bnd])
+            for k in np.nonzero(~(np.abs(got - want) <= TOL_AFF * (1 + want)))[0][:5]:
+                viol([c_ for c_, b_ in zip(sel, bnd) if b_][k], "aff_ctr_to_fs_ctr(%s)" % label,
+                     dict(got=float(np.real(got[k])), spec=float(want[k])))
+        except Exception as e:
+            viol(sel[0], "raised:aff_ctr_to_fs_ctr(%s)" % label, err(e))
+        run.evaluations += len(sel) + int(bnd.sum())
+    run.actions["utils.cp1"] = 2 * (len(sel) + int(bnd.sum()))
+
+
 def disks(run):
     global GENS, LTS, OBS, CASES, MAXDEPTH
     c = constants(run.tier, "disks")
@@ -647,6 +688,7 @@ def disks(run):
         outs = pool.map(unit_histories, [(ujobs[i::n],) for i in range(n)])
     for out in outs:
         record(out, "history(unit)")
+    cp1_helpers(run)
 
 
 # ----------------------------------------------------------------------------------------
